@@ -20,7 +20,9 @@ const CacheLabel = "package-operator.run/cache"
 // CacheNotStarted mirrors dynamiccache.CacheNotStartedError.
 type CacheNotStarted struct{}
 
-func (CacheNotStarted) Error() string { return "cache access before calling Watch, can not read objects" }
+func (CacheNotStarted) Error() string {
+	return "cache access before calling Watch, can not read objects"
+}
 
 // Cache is the stand-in for dynamiccache.Cache: a FRESH view of the store restricted to watched
 // kinds and to objects carrying the cache label (DESIGN.md §4).  Restart() drops all watches.
@@ -37,7 +39,9 @@ func (s *Store) NewCache() *Cache {
 	return &Cache{s: s, watches: map[schema.GroupKind]map[string]bool{}}
 }
 
-func ownerID(o client.Object) string { return string(o.GetUID()) + "/" + o.GetNamespace() + "/" + o.GetName() }
+func ownerID(o client.Object) string {
+	return string(o.GetUID()) + "/" + o.GetNamespace() + "/" + o.GetName()
+}
 
 func (c *Cache) Watch(_ context.Context, owner client.Object, obj runtime.Object) error {
 	gvk, err := apiutil.GVKForObject(obj, c.s.scheme)
